@@ -166,6 +166,11 @@ fn param_list(w_line_prefix: &str, names: &[String], leading_self: bool) -> (Str
 pub fn render(items: &[Item]) -> Rendered {
     let mut w = W { text: String::new(), line: 1 };
     let mut out = Rendered::default();
+    if let [Item::Raw { text }] = items {
+        // a file given verbatim (real-world corpus)
+        out.text = text.clone();
+        return out;
+    }
     w.ln("import pytest");
     for (idx, it) in items.iter().enumerate() {
         match it {
